@@ -1,6 +1,7 @@
 package main
 
 import (
+	"os"
 	"fmt"
 	"go/token"
 	"go/types"
@@ -235,36 +236,7 @@ func transcriptOf(c *Ctx, fn *ssa.Function) (seqs map[string]bool, shape string)
 				items = append(items, ev.Val)
 			}
 		}
-		var parts []string
-		for i := 0; i < len(items); i++ {
-			it := items[i]
-			// four consecutive bytes of one 32-bit field, least significant first
-			if strings.HasSuffix(it, "[7:0]") && i+3 < len(items) {
-				base := strings.TrimSuffix(it, "[7:0]")
-				if items[i+1] == base+"[15:8]" && items[i+2] == base+"[23:16]" && items[i+3] == base+"[31:24]" {
-					parts = append(parts, "le32("+strings.TrimPrefix(base, "f:")+")")
-					i += 3
-					continue
-				}
-			}
-			lookup, decided := le.Bools["m1.PrivilegeLevelLookup"]
-			switch {
-			case it == "f:m1.MaxPrivilegeLevel[3:0]" && decided && lookup:
-				roleKinds["role(level,lookup)"] = true
-				parts = append(parts, "role")
-			case it == "{0b1,f:m1.MaxPrivilegeLevel[3:0]}" && decided && !lookup:
-				roleKinds["role(level,name-only|0x10)"] = true
-				parts = append(parts, "role")
-			case strings.HasPrefix(it, "copy(f:") && strings.HasSuffix(it, "[0:16])"):
-				parts = append(parts, strings.TrimSuffix(strings.TrimPrefix(it, "copy(f:"), "[0:16])"))
-			case it == "lin(wrap8(len(f:m1.Username)))" || it == "lin(len(f:m1.Username))":
-				parts = append(parts, "len8(m1.Username)")
-			case it == "copy(f:m1.Username)":
-				parts = append(parts, "bytes(m1.Username)")
-			default:
-				parts = append(parts, "?"+it)
-			}
-		}
+		parts := describeHashItems(items, le, roleKinds)
 		seqs[strings.Join(parts, ",")] = true
 	}
 	complete := enumPaths(fn, 1, 4096, func(p CPath) {
@@ -314,6 +286,44 @@ func transcriptOf(c *Ctx, fn *ssa.Function) (seqs map[string]bool, shape string)
 	return seqs, shape
 }
 
+// describeHashItems turns the byte-level hash input of one digest computation (E2 hash
+// events, in order) into the specification's vocabulary: le32(field), whole array fields,
+// the role byte (by the path's decision on PrivilegeLevelLookup), len8 and bytes of the
+// username. Anything else is kept verbatim, prefixed "?".
+func describeHashItems(items []string, le layoutEvents, roleKinds map[string]bool) []string {
+	var parts []string
+	for i := 0; i < len(items); i++ {
+		it := items[i]
+		// four consecutive bytes of one 32-bit field, least significant first
+		if strings.HasSuffix(it, "[7:0]") && i+3 < len(items) {
+			base := strings.TrimSuffix(it, "[7:0]")
+			if items[i+1] == base+"[15:8]" && items[i+2] == base+"[23:16]" && items[i+3] == base+"[31:24]" {
+				parts = append(parts, "le32("+strings.TrimPrefix(base, "f:")+")")
+				i += 3
+				continue
+			}
+		}
+		lookup, decided := le.Bools["m1.PrivilegeLevelLookup"]
+		switch {
+		case it == "f:m1.MaxPrivilegeLevel[3:0]" && decided && lookup:
+			roleKinds["role(level,lookup)"] = true
+			parts = append(parts, "role")
+		case it == "{0b1,f:m1.MaxPrivilegeLevel[3:0]}" && decided && !lookup:
+			roleKinds["role(level,name-only|0x10)"] = true
+			parts = append(parts, "role")
+		case strings.HasPrefix(it, "copy(f:") && strings.HasSuffix(it, "[0:16])"):
+			parts = append(parts, strings.TrimSuffix(strings.TrimPrefix(it, "copy(f:"), "[0:16])"))
+		case it == "lin(wrap8(len(f:m1.Username)))" || it == "lin(len(f:m1.Username))":
+			parts = append(parts, "len8(m1.Username)")
+		case it == "copy(f:m1.Username)":
+			parts = append(parts, "bytes(m1.Username)")
+		default:
+			parts = append(parts, "?"+it)
+		}
+	}
+	return parts
+}
+
 var specTranscripts = map[string]string{
 	"rakp2": "le32(m2.RemoteConsoleSessionID),le32(m1.ManagedSystemSessionID),m1.RemoteConsoleRandom,m2.ManagedSystemRandom,m2.ManagedSystemGUID,role,len8(m1.Username),bytes(m1.Username)",
 	"rakp3": "m2.ManagedSystemRandom,le32(m2.RemoteConsoleSessionID),role,len8(m1.Username),bytes(m1.Username)",
@@ -349,27 +359,32 @@ func checkC01(c *Ctx, r *Report) {
 
 	// ---- (1)+(2) transcripts
 	r.Rule("hash-transcripts", "each RAKP computation hashes exactly the specified fields in the specified order and encoding, on every path, and returns the whole digest", 4)
-	found := map[string]*ssa.Function{}
-	for _, fn := range c.transcriptFuncs() {
-		name := c.FnName(fn)
-		r.Fn(name)
-		kind, got, shape := classifyTranscript(c, fn)
-		switch {
-		case kind == "":
-			r.Bad(name+"|transcript", fn.Pos(), "hash input sequence ["+got+"] matches none of the specified RAKP2/RAKP3/SIK/RAKP4 transcripts"+ifs(shape != "", "; "+shape))
-		case shape != "":
-			r.Bad(name+"|transcript", fn.Pos(), kind+": "+shape)
-		case found[kind] != nil:
-			r.Bad(name+"|transcript", fn.Pos(), "second function computing the "+kind+" transcript")
-		default:
-			found[kind] = fn
-			r.OK(name+"|transcript", fn.Pos(), kind+" = "+got)
+	found := map[string]*trSite{}
+	if m0 := c.findCtor(); m0 != nil && m0.M1 != nil && m0.M2 != nil {
+		sites, extra := c.transcriptSites(m0)
+		for _, k := range []string{"rakp2", "rakp3", "sik", "rakp4"} {
+			st := sites[k]
+			if st == nil {
+				r.Bad("missing "+k+" transcript", token.NoPos, "nothing computes the "+k+" hash input sequence "+specTranscripts[k]+" (neither a function of the transcript signature nor the session constructor itself)")
+				continue
+			}
+			where := c.FnName(m0.Fn) + " (written out)"
+			if st.Fn != nil {
+				where = c.FnName(st.Fn)
+				r.Fn(where)
+			}
+			if st.Shape != "" {
+				r.Bad(where+"|transcript", st.Pos, k+": "+st.Shape)
+				continue
+			}
+			found[k] = st
+			r.OK(where+"|transcript", st.Pos, k+" = "+st.Got)
 		}
-	}
-	for _, k := range []string{"rakp2", "rakp3", "sik", "rakp4"} {
-		if found[k] == nil {
-			r.Bad("missing "+k+" transcript", token.NoPos, "no function computes the "+k+" hash input sequence "+specTranscripts[k])
+		for _, e := range extra {
+			r.Bad(e[:strings.Index(e+":", ":")]+"|transcript", token.NoPos, e)
 		}
+	} else {
+		r.Lost("session constructor with RAKP1 and RAKP2 values")
 	}
 
 	// role byte agreement with RAKP Message 1 byte 24
@@ -454,7 +469,7 @@ func hashCtorName(v *GVal) string {
 	return v.String()
 }
 
-func checkKeyWiring(c *Ctx, r *Report, tr map[string]*ssa.Function) {
+func checkKeyWiring(c *Ctx, r *Report, tr map[string]*trSite) {
 	m := c.findCtor()
 	r.Rule("key-wiring", "AuthCode HMAC keyed by the password; SIK HMAC keyed by KG, or the password exactly when KG is empty; ICV and K_n HMACs keyed by the SIK; integrity hash keyed by K(1), cipher by the first 16 bytes of K(2)", 6)
 	if m == nil || m.Opts == nil || m.M1 == nil || m.M2 == nil {
@@ -463,16 +478,6 @@ func checkKeyWiring(c *Ctx, r *Report, tr map[string]*ssa.Function) {
 	}
 	name := c.FnName(m.Fn)
 	r.Fn(name)
-	// find calls to the transcript functions
-	callTo := func(fn *ssa.Function) *ssa.Call {
-		var out *ssa.Call
-		allInstrs(m.Fn, false, func(in ssa.Instruction) {
-			if call, ok := in.(*ssa.Call); ok && fn != nil && call.Call.StaticCallee() == fn {
-				out = call
-			}
-		})
-		return out
-	}
 	optField := func(v ssa.Value, field string) bool {
 		ld, ok := v.(*ssa.UnOp)
 		if !ok || ld.Op != token.MUL {
@@ -481,11 +486,15 @@ func checkKeyWiring(c *Ctx, r *Report, tr map[string]*ssa.Function) {
 		a := apOf(ld.X)
 		return a.Root == ssa.Value(m.Opts) && a.SelString() == field
 	}
-	// hash constructor call: method on the params object, returns hash.Hash
+	// hashFrom: the keyed hash a value denotes — made by a method of the algorithm's parameter
+	// set from a key, or by hmac.New(hash constructor, key) written out
 	hashFrom := func(v ssa.Value) (method string, key ssa.Value) {
 		call, ok := v.(*ssa.Call)
 		if !ok {
 			return "", nil
+		}
+		if calleeName(&call.Call) == "crypto/hmac.New" && len(call.Call.Args) == 2 {
+			return "hmac.New", call.Call.Args[1]
 		}
 		f := call.Call.StaticCallee()
 		if f == nil || f.Signature.Recv() == nil {
@@ -497,20 +506,20 @@ func checkKeyWiring(c *Ctx, r *Report, tr map[string]*ssa.Function) {
 		}
 		return f.Name(), args[0]
 	}
-	c2, c3, cs, c4 := callTo(tr["rakp2"]), callTo(tr["rakp3"]), callTo(tr["sik"]), callTo(tr["rakp4"])
-	if c2 == nil || c3 == nil || cs == nil || c4 == nil {
-		r.Bad(name+"|transcript calls", m.Fn.Pos(), "the constructor does not call all four RAKP computations")
+	s2, s3, ss, s4 := tr["rakp2"], tr["rakp3"], tr["sik"], tr["rakp4"]
+	if s2 == nil || s3 == nil || ss == nil || s4 == nil || s2.Hash == nil || s3.Hash == nil || ss.Hash == nil || s4.Hash == nil {
+		r.Bad(name+"|transcript calls", m.Fn.Pos(), "the constructor does not make all four RAKP computations")
 		return
 	}
-	for _, cc := range []*ssa.Call{c2, c3, cs, c4} {
-		ok := cc.Call.Args[1] == m.M1 && cc.Call.Args[2] == m.M2
-		r.Check(ok, name+"|"+cc.Call.StaticCallee().Name()+" messages", cc.Pos(), "computed over the RAKP1 sent and the RAKP2 received", "computation is not over the RAKP Message 1 that was sent and the RAKP Message 2 that was received")
+	for _, st := range []*trSite{s2, s3, ss, s4} {
+		r.Check(st.OverM1M2, name+"|"+st.Kind+" messages", st.Pos, "computed over the RAKP1 sent and the RAKP2 received", "computation is not over the RAKP Message 1 that was sent and the RAKP Message 2 that was received")
 	}
+	cs := ss.Result
 	// AuthCode hash: same hash object for RAKP2 and RAKP3, keyed by opts.Password
-	_, key2 := hashFrom(c2.Call.Args[0])
-	r.Check(key2 != nil && optField(key2, "Password") && c3.Call.Args[0] == c2.Call.Args[0], name+"|authcode key", c2.Pos(), "RAKP2/RAKP3 AuthCode HMAC keyed by opts.Password", "the RAKP2/RAKP3 AuthCode HMAC is not keyed by the caller's password")
+	_, key2 := hashFrom(s2.Hash)
+	r.Check(key2 != nil && optField(key2, "Password") && s3.Hash == s2.Hash, name+"|authcode key", s2.Pos, "RAKP2/RAKP3 AuthCode HMAC keyed by opts.Password", "the RAKP2/RAKP3 AuthCode HMAC is not keyed by the caller's password")
 	// SIK hash key: phi(opts.KG, opts.Password) selected by len(KG)==0
-	_, keyS := hashFrom(cs.Call.Args[0])
+	_, keyS := hashFrom(ss.Hash)
 	// decided per feasible success path of the flattened view: the key resolves to opts.KG on
 	// paths where len(opts.KG) was found non-zero and to opts.Password where it was found zero
 	okS := true
@@ -567,10 +576,10 @@ func checkKeyWiring(c *Ctx, r *Report, tr map[string]*ssa.Function) {
 	if !completeS || nS == 0 {
 		okS, whyS = false, "could not enumerate the constructor's success paths"
 	}
-	r.Check(okS, name+"|SIK key", cs.Pos(), "SIK HMAC keyed by KG, or by the password exactly when len(KG)==0", whyS)
+	r.Check(okS, name+"|SIK key", ss.Pos, "SIK HMAC keyed by KG, or by the password exactly when len(KG)==0", whyS)
 	// ICV hash keyed by the SIK value
-	_, key4 := hashFrom(c4.Call.Args[0])
-	r.Check(key4 == ssa.Value(cs), name+"|ICV key", c4.Pos(), "RAKP4 ICV HMAC keyed by the computed SIK", "the RAKP4 ICV HMAC is not keyed by the SIK computed from this exchange")
+	_, key4 := hashFrom(s4.Hash)
+	r.Check(key4 == cs, name+"|ICV key", s4.Pos, "RAKP4 ICV HMAC keyed by the computed SIK", "the RAKP4 ICV HMAC is not keyed by the SIK computed from this exchange")
 	// K generator keyed by the SIK; session.SIK field = sik; generator stored in session
 	lit, _, _ := complitFieldsAlloc(m.Lit)
 	var kgen ssa.Value
@@ -583,14 +592,14 @@ func checkKeyWiring(c *Ctx, r *Report, tr map[string]*ssa.Function) {
 		inner := stripConv(kgen)
 		if f, _, ok := complitFields(inner); ok {
 			if hv, has := f[fAkmHash]; has {
-				if _, key := hashFrom(hv); key == ssa.Value(cs) {
+				if _, key := hashFrom(hv); key == cs {
 					okK = true
 				}
 			}
 		}
 	}
 	r.Check(okK, name+"|K_n key", m.Lit.Pos(), "additional key material HMAC keyed by the SIK and stored in the session", "the K_n generator stored in the session is not an HMAC keyed by the computed SIK")
-	r.Check(lit["SIK"] == ssa.Value(cs), name+"|session.SIK", m.Lit.Pos(), "session SIK field is the computed SIK", "the session's SIK field is not the SIK computed from this exchange")
+	r.Check(lit["SIK"] == cs, name+"|session.SIK", m.Lit.Pos(), "session SIK field is the computed SIK", "the session's SIK field is not the SIK computed from this exchange")
 
 	// same hash family for all HMACs: all from methods of one params object selected by the response's authentication algorithm
 	checkAlgorithmTables(c, r)
@@ -817,7 +826,34 @@ func checkAlgorithmTables(c *Ctx, r *Report) {
 	if pt, ok := authFn.Signature.Results().At(0).Type().(*types.Pointer); ok {
 		paramsT, _ = pt.Elem().(*types.Named)
 	}
-	for _, mn := range []string{"AuthCode", "SIK", "K"} {
+	// every method of the parameter set that makes a keyed hash from a key (AuthCode, SIK, K —
+	// however many of them there are; a caller may also write hmac.New(hashGen, key) itself,
+	// which the key-wiring rule reads the same way)
+	var makers []string
+	if paramsT != nil {
+		for i := 0; i < paramsT.NumMethods(); i++ {
+			m := paramsT.Method(i)
+			sig := m.Type().(*types.Signature)
+			if sig.Params().Len() == 1 && sig.Results().Len() == 1 && isHashHash(sig.Results().At(0).Type()) {
+				if mf := c.Prog.FuncValue(m); mf != nil && mf.Blocks != nil {
+					usesNew := false
+					rawInstrs(mf, false, func(in ssa.Instruction) {
+						if call, ok := in.(*ssa.Call); ok && calleeName(&call.Call) == "crypto/hmac.New" {
+							usesNew = true
+						}
+					})
+					if usesNew || m.Name() == "K" || m.Name() == "SIK" || m.Name() == "AuthCode" {
+						makers = append(makers, m.Name())
+					}
+				}
+			}
+		}
+		sort.Strings(makers)
+	}
+	if len(makers) == 0 {
+		r.Bad("authenticationAlgorithmParams|keyed hash makers", authFn.Pos(), "the parameter set has no method making an HMAC over the algorithm's hash")
+	}
+	for _, mn := range makers {
 		okm := false
 		if paramsT != nil {
 			if mf := c.MethodOf(paramsT, mn); mf != nil && mf.Blocks != nil {
@@ -1088,24 +1124,63 @@ func checkAlgorithmTables(c *Ctx, r *Report) {
 	r.Fn(c.FnName(kf))
 	// structure: the digest helper (write all, Sum(nil), Reset, return the sum) is applied to the
 	// generator's own hash and its result is what K returns
-	okHash := false
-	var helperCall *ssa.Call
-	allInstrs(kf, false, func(in ssa.Instruction) {
-		if x, ok := in.(*ssa.Call); ok && x.Parent() == kf {
-			if f := x.Call.StaticCallee(); f != nil && len(x.Call.Args) == 2 && hashHelperShape(f) == "" {
-				if ld, ok := x.Call.Args[0].(*ssa.UnOp); ok && strings.HasSuffix(apOf(ld.X).SelString(), fAkmHash) {
-					helperCall = x
+	// per path of K's flattened view (the digest helper may be a function or written out): what
+	// is written goes into the generator's own hash, once; the whole Sum(nil) of that hash is
+	// taken after the write, the hash is reset after that, and the sum is what K returns
+	okHash := true
+	nDigest := 0
+	completeK := enumPaths(kf, 1, 4096, func(p CPath) {
+		ret, isRet := p.Last().(*ssa.Return)
+		if !isRet || ret.Parent() != kf {
+			return
+		}
+		var nWrite int
+		var sum ssa.Value
+		sumAt, resetAt, writeAt := -1, -1, -1
+		for i, oc := range p.Occs() {
+			cc := asCall(oc.In)
+			if cc == nil || !cc.IsInvoke() || !isHashHash(cc.Value.Type()) {
+				continue
+			}
+			own := false
+			if ld, ok := p.ResolveIn(oc.Ctx, cc.Value).(*ssa.UnOp); ok && ld.Op == token.MUL {
+				a := p.APIn(oc.Ctx, ld.X)
+				own = strings.HasSuffix(a.SelString(), fAkmHash) && (a.Root == ssa.Value(kf.Params[0]) || cellParam0(a.Root) == kf.Params[0])
+			}
+			switch cc.Method.Name() {
+			case "Write":
+				nWrite++
+				writeAt = i
+				if !own {
+					okHash = false
+				}
+			case "Sum":
+				if own && len(cc.Args) == 1 && isNilConst(cc.Args[0]) {
+					sum, sumAt = oc.In.(ssa.Value), i
+				} else {
+					okHash = false
+				}
+			case "Reset":
+				if own {
+					resetAt = i
 				}
 			}
 		}
-	})
-	if helperCall != nil {
-		okHash = true
-		for _, ret := range returnsOf(kf) {
-			if ret.Results[0] != ssa.Value(helperCall) {
+		rv := p.Resolve(ret.Results[0])
+		if nWrite == 0 {
+			// the nil-hash arm: nothing is hashed, nothing is returned
+			if !isNilConst(rv) {
 				okHash = false
 			}
+			return
 		}
+		nDigest++
+		if nWrite != 1 || sum == nil || !(writeAt < sumAt && sumAt < resetAt) || rv != sum {
+			okHash = false
+		}
+	})
+	if !completeK || nDigest == 0 {
+		okHash = false
 	}
 	// content: decided on bit provenance — the hash input is exactly 20 bytes, all written by
 	// one loop, each holding the low byte of n
@@ -1171,7 +1246,7 @@ func checkAlgorithmTables(c *Ctx, r *Report) {
 
 // ---------------------------------------------------------------- driver order
 
-func checkDriverOrder(c *Ctx, r *Report, tr map[string]*ssa.Function) {
+func checkDriverOrder(c *Ctx, r *Report, tr map[string]*trSite) {
 	m := c.findCtor()
 	r.Rule("driver-order", "open session ≺ RAKP1/2 ≺ RAKP3/4 ≺ session; RAKP messages carry the BMC's session ID from the Open Session Response; the session's LocalID/RemoteID are the console's and BMC's IDs from that response", 6)
 	if m == nil || m.OpenCall == nil || m.R1Call == nil || m.R3Call == nil {
@@ -1210,6 +1285,24 @@ func checkDriverOrder(c *Ctx, r *Report, tr map[string]*ssa.Function) {
 				}
 			}
 		}
+		// or read straight into the message's field, before the message is sent, and the
+		// field is not assigned otherwise
+		if _, has := f["RemoteConsoleRandom"]; !has {
+			viewInstrs(m.Fn, func(in ssa.Instruction) {
+				call, isCall := in.(*ssa.Call)
+				if !isCall || calleeName(&call.Call) != "crypto/rand.Read" || len(call.Call.Args) != 1 {
+					return
+				}
+				sl, isSl := call.Call.Args[0].(*ssa.Slice)
+				if !isSl || sl.Low != nil || sl.High != nil {
+					return
+				}
+				a := apOf(sl.X)
+				if a.Root == ssa.Value(al) && a.SelString() == "RemoteConsoleRandom" && mustPrecede(m.Fn, call, m.R1Call) {
+					okRand = true
+				}
+			})
+		}
 		r.Check(okRand, name+"|RAKP1.RemoteConsoleRandom", al.Pos(), "16 bytes from crypto/rand.Read", "the remote console random number is not filled by crypto/rand.Read before use")
 	} else {
 		r.Unk(name+"|RAKP1 literal", m.R1Call.Pos(), "RAKP Message 1 is not a composite literal")
@@ -1222,7 +1315,7 @@ func checkDriverOrder(c *Ctx, r *Report, tr map[string]*ssa.Function) {
 		k, isK := constInt(f["Status"])
 		okStatus := f["Status"] == nil || (isK && k == 0)
 		var c3 *ssa.Call
-		if cc, isCall := f["AuthCode"].(*ssa.Call); isCall && cc.Call.StaticCallee() == tr["rakp3"] && tr["rakp3"] != nil {
+		if cc, isCall := f["AuthCode"].(*ssa.Call); isCall && tr["rakp3"] != nil && tr["rakp3"].Result == ssa.Value(cc) {
 			c3 = cc
 		}
 		r.Check(okID && okStatus && c3 != nil, name+"|RAKP3 literal", al.Pos(), "status OK, BMC session ID, AuthCode = RAKP3 computation", fmt.Sprintf("RAKP Message 3 is malformed: session-id-from-response=%v status-ok=%v authcode-is-rakp3=%v", okID, okStatus, c3 != nil))
@@ -1232,4 +1325,203 @@ func checkDriverOrder(c *Ctx, r *Report, tr map[string]*ssa.Function) {
 	// session literal IDs
 	lit, _, _ := complitFieldsAlloc(m.Lit)
 	r.Check(fieldLoadOf(lit["LocalID"], m.OpenRsp, "RemoteConsoleSessionID") && fieldLoadOf(lit["RemoteID"], m.OpenRsp, "ManagedSystemSessionID"), name+"|session IDs", m.Lit.Pos(), "LocalID = console's, RemoteID = BMC's", "the session's LocalID/RemoteID are not the console's and BMC's session IDs from the Open Session Response")
+}
+
+// ---------------------------------------------------------------- where the four computations happen
+
+// trSite is one of the four RAKP digest computations as the session constructor performs
+// it: by calling a function that computes it from (hash, RAKP1, RAKP2), or written out in
+// the constructor itself (Write… Sum(nil) Reset on a hash object). Either way the rules
+// about keys, order and comparisons talk about the hash object and the digest value.
+type trSite struct {
+	Kind     string
+	Fn       *ssa.Function // nil when the computation is written out in the constructor
+	Call     *ssa.Call     // the call of Fn (nil when written out)
+	Hash     ssa.Value     // the hash object, a value of the constructor
+	Result   ssa.Value     // the digest, a value of the constructor (the call, or the Sum call)
+	OverM1M2 bool          // computed over the RAKP1 sent and the RAKP2 received
+	Pos      token.Pos
+	Shape    string // non-empty: what is wrong with the computation's shape
+	Got      string
+}
+
+var trSiteCache struct {
+	c     *Ctx
+	m     *ctorModel
+	sites map[string]*trSite
+	extra []string // problems found while looking (second function for one kind, unclassified computation…)
+}
+
+// transcriptSites finds the four computations of constructor m.
+func (c *Ctx) transcriptSites(m *ctorModel) (map[string]*trSite, []string) {
+	if trSiteCache.c == c && trSiteCache.m != nil && trSiteCache.m.Fn == m.Fn {
+		return trSiteCache.sites, trSiteCache.extra
+	}
+	sites := map[string]*trSite{}
+	var extra []string
+	callTo := func(fn *ssa.Function) *ssa.Call {
+		var out *ssa.Call
+		allInstrs(m.Fn, false, func(in ssa.Instruction) {
+			if call, ok := in.(*ssa.Call); ok && call.Call.StaticCallee() == fn {
+				out = call
+			}
+		})
+		return out
+	}
+	// (1) functions of the transcript signature
+	for _, fn := range c.transcriptFuncs() {
+		kind, got, shape := classifyTranscript(c, fn)
+		if kind == "" {
+			extra = append(extra, c.FnName(fn)+": hash input sequence ["+got+"] matches none of the specified RAKP2/RAKP3/SIK/RAKP4 transcripts"+ifs(shape != "", "; "+shape))
+			continue
+		}
+		if sites[kind] != nil {
+			extra = append(extra, c.FnName(fn)+": second function computing the "+kind+" transcript")
+			continue
+		}
+		st := &trSite{Kind: kind, Fn: fn, Pos: fn.Pos(), Shape: shape, Got: got}
+		if call := callTo(fn); call != nil {
+			st.Call, st.Hash, st.Result = call, call.Call.Args[0], call
+			st.OverM1M2 = call.Call.Args[1] == m.M1 && call.Call.Args[2] == m.M2
+		}
+		sites[kind] = st
+	}
+	// (2) computations written out in the constructor: read off the constructor's own hash
+	// input streams (engine E2, objects named by their type)
+	missing := 0
+	for k := range specTranscripts {
+		if sites[k] == nil {
+			missing++
+		}
+	}
+	if missing > 0 {
+		for k, st := range c.inlineTranscripts(m) {
+			if sites[k] == nil {
+				sites[k] = st
+			}
+		}
+	}
+	trSiteCache.c, trSiteCache.m, trSiteCache.sites, trSiteCache.extra = c, m, sites, extra
+	return sites, extra
+}
+
+// inlineTranscripts runs E2 over the constructor and classifies every digest computation
+// (the bytes written into one hash object up to its Sum) made by the constructor's own
+// code on its success paths.
+func (c *Ctx) inlineTranscripts(m *ctorModel) map[string]*trSite {
+	out := map[string]*trSite{}
+	names := map[string]string{}
+	if n := c.Named("pkg/ipmi", "RAKPMessage1"); n != nil {
+		names[types.TypeString(n, nil)] = "m1."
+	}
+	if n := c.Named("pkg/ipmi", "RAKPMessage2"); n != nil {
+		names[types.TypeString(n, nil)] = "m2."
+	}
+	// one object of each type only, else a name would not identify the message
+	nM1, nM2 := 0, 0
+	viewInstrs(m.Fn, func(in ssa.Instruction) {
+		if al, ok := in.(*ssa.Alloc); ok {
+			if pt, ok := al.Type().Underlying().(*types.Pointer); ok {
+				switch types.TypeString(pt.Elem(), nil) {
+				case modPath + "/pkg/ipmi.RAKPMessage1":
+					nM1++
+				case modPath + "/pkg/ipmi.RAKPMessage2":
+					nM2++
+				}
+			}
+		}
+	})
+	if nM1 > 1 || nM2 > 1 {
+		return out
+	}
+	evs, why := extractEventsNamed(c, m.Fn, map[string]int{"m1.MaxPrivilegeLevel": 4}, nil, names)
+	if why != "" {
+		return out
+	}
+	// position → call instruction, for the instructions of the constructor itself
+	byPos := map[token.Pos]*ssa.Call{}
+	rawInstrs(m.Fn, false, func(in ssa.Instruction) {
+		if call, ok := in.(*ssa.Call); ok && call.Pos().IsValid() {
+			byPos[call.Pos()] = call
+		}
+	})
+	type sess struct {
+		first, sum token.Pos
+		seq        string
+		role       map[string]bool
+	}
+	type agg struct {
+		seqs   map[string]bool
+		first  token.Pos
+		sum    token.Pos
+		paths  int
+		roleOK bool
+	}
+	aggs := map[token.Pos]*agg{} // keyed by the position of the Sum call
+	nOK := 0
+	for _, le := range evs {
+		// the paths that hand back a session
+		if !le.OK || le.Ret0Nil {
+			continue
+		}
+		nOK++
+		cur := map[string]*sess{}
+		var items = map[string][]string{}
+		for _, ev := range le.Events {
+			switch ev.Kind {
+			case "hash":
+				if cur[ev.Recv] == nil {
+					cur[ev.Recv] = &sess{first: ev.RootPos, role: map[string]bool{}}
+				}
+				items[ev.Recv] = append(items[ev.Recv], ev.Val)
+			case "hashop":
+				s := cur[ev.Recv]
+				if ev.Name == "Sum" && s != nil {
+					s.sum = ev.RootPos
+					s.seq = strings.Join(describeHashItems(items[ev.Recv], le, s.role), ",")
+					a := aggs[s.sum]
+					if a == nil {
+						a = &agg{seqs: map[string]bool{}, first: s.first, sum: s.sum, roleOK: true}
+						aggs[s.sum] = a
+					}
+					a.seqs[s.seq] = true
+					a.paths++
+					delete(cur, ev.Recv)
+					delete(items, ev.Recv)
+				}
+			}
+		}
+	}
+	for _, a := range aggs {
+		if os.Getenv("DBG_TR") != "" {
+			fmt.Fprintf(os.Stderr, "agg sum=%s first=%s paths=%d/%d seqs=%v\n", c.Pos(a.sum), c.Pos(a.first), a.paths, nOK, a.seqs)
+		}
+		sumCall := byPos[a.sum]
+		firstCall := byPos[a.first]
+		if sumCall == nil || firstCall == nil || !sumCall.Call.IsInvoke() || !firstCall.Call.IsInvoke() {
+			continue // the computation is made by a function the constructor calls: judged there
+		}
+		if len(a.seqs) != 1 {
+			continue
+		}
+		var got string
+		for s := range a.seqs {
+			got = s
+		}
+		for k, want := range specTranscripts {
+			if got != want {
+				continue
+			}
+			st := &trSite{Kind: k, Hash: firstCall.Call.Value, Result: sumCall, OverM1M2: true, Pos: firstCall.Pos(), Got: got}
+			// on every success path, the whole Sum(nil), after the last write; the hash is reset afterwards
+			if a.paths != nOK {
+				st.Shape = "the computation is skipped on some paths that return a session"
+			}
+			if len(sumCall.Call.Args) != 1 || !isNilConst(sumCall.Call.Args[0]) {
+				st.Shape = "Sum not Sum(nil)"
+			}
+			out[k] = st
+		}
+	}
+	return out
 }
